@@ -159,6 +159,20 @@ def generate(seed, tier, index):
     return case
 
 
+def continue_after(case, results):
+    """variants (which include the library's own uncapped simulate_script loop) only run when the iterate()-only
+    reference completed within the cap"""
+    res = results[0]
+    if res.status != "ok":
+        return False
+    for ev in res.events:
+        if ev["op"] == "drive" and ("exc" in ev or not ev.get("done", False)):
+            return False
+        if ev["op"] == "setup" and "exc" in ev:
+            return False
+    return True
+
+
 def _outputs(case, results):
     """all (lifetime, episode, op, event) of output-like events on the main script or its twin"""
     outs = []
